@@ -537,7 +537,9 @@ class _VersionIndependentUnmarshaller:
             return self.r_ref_insert(ret, i)
 
         co_consts = self.r_object(bytes_for_s=bytes_for_s)
-        co_names = self.r_object(bytes_for_s=bytes_for_s)
+        # Names are text in every Python 3: PyPy 3.2 marshals them as
+        # TYPE_STRING, which must not come back as bytes.
+        co_names = self.r_object(bytes_for_s=False)
 
         co_varnames = tuple()
         co_freevars = tuple()
@@ -575,11 +577,11 @@ class _VersionIndependentUnmarshaller:
                 co_varnames = tuple()
 
             if self.version_tuple >= (2, 1):
-                co_freevars = self.r_object(bytes_for_s=bytes_for_s)
-                co_cellvars = self.r_object(bytes_for_s=bytes_for_s)
+                co_freevars = self.r_object(bytes_for_s=False)
+                co_cellvars = self.r_object(bytes_for_s=False)
 
-            co_filename = self.r_object(bytes_for_s=bytes_for_s)
-            co_name = self.r_object(bytes_for_s=bytes_for_s)
+            co_filename = self.r_object(bytes_for_s=False)
+            co_name = self.r_object(bytes_for_s=False)
 
         co_exceptiontable = None
         if self.version_tuple >= (1, 5):
